@@ -41,6 +41,7 @@ type Node struct {
 }
 
 type World struct {
+	trxSeq int
 	c       *Ctx
 	nodes   []*Node
 	wallets []*wallet.Wallet
@@ -305,6 +306,31 @@ func (w *World) Propose(n *Node, t *transaction.Transaction) (accountant.Vertex,
 	}
 	w.c.Line("PROP %d %s %d | %s | %s", n.id, tf, name, errTag(err), w.Snap(n))
 	w.after(n, "propose", err)
+	if err == nil && n.lastSnap != nil {
+		// C09: a created vertex carries weight max(parent weights) + 1
+		wt := map[[32]byte]uint64{}
+		for i := range n.lastSnap.Vertices {
+			wt[n.lastSnap.Vertices[i].Hash] = n.lastSnap.Vertices[i].Weight
+		}
+		for i := range n.lastSnap.CpVertices {
+			wt[n.lastSnap.CpVertices[i].Hash] = n.lastSnap.CpVertices[i].Weight
+		}
+		l, okl := wt[v.LeftParentHash]
+		r, okr := wt[v.RightParentHash]
+		if okl && okr {
+			m := l
+			if r > m {
+				m = r
+			}
+			w.c.Count("oracle.c09.created-weight")
+			if l != r {
+				w.c.Count("oracle.c09.created-weight.parents-differ")
+			}
+			if v.Weight != m+1 {
+				w.c.Violate("C09", "created-vertex-weight-not-max-plus-one", fmt.Sprintf("node %d created vertex %x with weight %d over parents of weight %d (left) and %d (right)", n.id, v.Hash[:4], v.Weight, l, r), w.replayInfo(n, "propose"))
+			}
+		}
+	}
 	return v, err
 }
 
@@ -379,6 +405,26 @@ func (w *World) balanceOracle(n *Node, addr string, got spice.Melange, err error
 	cp := new(big.Int)
 	if m, ok := s.CpFunds[addr]; ok {
 		cp = bval(m)
+	}
+	// an independent reference for the checkpointed funds: the net flow of the vertices the node keeps in
+	// storage (everything it ever truncated), when its history is complete (genesis vertex known). Not for
+	// the genesis issuer, whose debt is clipped at truncation (recorded finding of C07).
+	if len(s.CpVertices) > 0 && addr != s.Genesis {
+		complete := false
+		var cvs []*accountant.Vertex
+		for i := range s.CpVertices {
+			v := &s.CpVertices[i]
+			cvs = append(cvs, v)
+			if isGenesisVertex(v) {
+				complete = true
+			}
+		}
+		if complete {
+			in, out := flow(addr, cvs)
+			if ref := new(big.Int).Sub(in, out); ref.Sign() >= 0 {
+				cp = ref
+			}
+		}
 	}
 	okMatch, negative := false, false
 	var refs []string
@@ -508,13 +554,23 @@ func (w *World) after(n *Node, op string, err error) {
 // ---- helpers for generators ----
 
 func (w *World) NewTrx(issuer *wallet.Wallet, receiver string, amt spice.Melange, data []byte) transaction.Transaction {
-	t, err := transaction.New("s", amt, data, receiver, issuer)
+	// subjects and creation times vary: neither plays a role in what a node does with a transaction
+	w.trxSeq++
+	subject := trxSubjects[w.trxSeq%len(trxSubjects)]
+	t, err := transaction.New(subject, amt, data, receiver, issuer)
 	if err != nil {
 		panic(err)
+	}
+	if off := trxTimeOffsets[(w.trxSeq/3)%len(trxTimeOffsets)]; off != 0 {
+		t.CreatedAt = t.CreatedAt.Add(off)
+		t.Hash, t.IssuerSignature = issuer.Sign(t.GetMessage())
 	}
 	// distinct nanosecond timestamps keep hashes distinct on fast machines
 	time.Sleep(time.Microsecond)
 	return t
 }
+
+var trxSubjects = []string{"s", "payment 42", " memo", "x\n", "subject with spaces ", "\u00e9t\u00e9", "S", "a much longer subject line that says what the transfer is for, with punctuation: ;,.!?"}
+var trxTimeOffsets = []time.Duration{0, 0, 0, -2 * time.Minute, 0, 0, 3 * time.Minute, 0, -72 * time.Hour, 0, 0, 72 * time.Hour, 0, -400 * 24 * time.Hour}
 
 func mval(m spice.Melange) *big.Int { return bval(m) }
